@@ -53,6 +53,8 @@ def load_consts(gen, names):
             vals.append(1)
         elif n == 'FieldElement::MINUS_ONE':
             vals.append(P - 1)
+        elif n.startswith('u32:') or n.startswith('int:'):
+            vals.append(int(n.split(':')[1]) % P)
         else:
             short = n.split('::')[-1]
             d = re.search(r'^def %s : List Nat :=\s*\n?\s*\[([^\]]*)\]' % short, u64, flags=re.M)
@@ -337,7 +339,119 @@ def affine_niels(pt):
     return [(y + x) % P, (y - x) % P, 2 * D * x * y % P]
 
 
+def vec_edwards_checks(C, mod, has_ext_select):
+    """parallel formulas: ExtendedPoint lanes = (X, Y, Z, T) with XY = ZT; CachedPoint =
+    k (Y-X, Y+X, 2Z, 2dT) up to a common factor, k = 121666 (so that 2d k = -2*121665)"""
+    K = 121666
+
+    def chk(item, gen, oracle, edges=()):
+        C.append((mod, item, gen, oracle, list(edges)))
+
+    def cached_of(e, rng=None):
+        X, Y, Z, T = e
+        c = [K * (Y - X) % P, K * (Y + X) % P, 2 * K * Z % P, (-2 * 121665 * T) % P]
+        if rng is not None and rng.random() < 0.5:
+            lam = rz(rng)
+            c = [x * lam % P for x in c]
+        return c
+
+    def affine_of_cached(c):
+        zi = inv(c[2] * inv(2) % P)
+        y = (c[0] + c[1]) * inv(2) % P * zi % P
+        x = (c[1] - c[0]) * inv(2) % P * zi % P
+        # consistency of the T2d lane: c3 = 2 d k T with T = x y z
+        return x, y
+
+    gen_e = lambda rng: ext(some_point(rng), rng)
+    chk('ExtendedPoint_from_EdwardsPoint', gen_e, lambda i, o: None if o == i else 'not the identity map')
+    chk('EdwardsPoint_from_ExtendedPoint', gen_e, lambda i, o: None if o == i else 'not the identity map')
+
+    def o_cfrom(i, o):
+        if o != cached_of(i):
+            return 'not k (Y-X, Y+X, 2Z, 2dT)'
+        if (o[3] - 2 * D * K * i[3]) % P:
+            return 'T2d lane is not 2 d k T'
+        if affine_of_cached(o) != affine_of_ext(i):
+            return 'decodes to the wrong point'
+        return None
+    chk('CachedPoint_from_ExtendedPoint', gen_e, o_cfrom)
+    for nm in ('ExtendedPoint_double', 'ExtendedPoint_mul_by_pow_2_body'):
+        chk(nm, gen_e, lambda i, o: ext_ok(o, ed_add(affine_of_ext(i), affine_of_ext(i))),
+            [ext(p_, random.Random(7)) for p_ in SPECIAL_POINTS])
+
+    def gen_pq(rng):
+        p_, q_ = some_point(rng), some_point(rng)
+        r = rng.random()
+        if r < 0.1:
+            q_ = p_
+        elif r < 0.2:
+            q_ = ed_neg(p_)
+        return ext(p_, rng) + cached_of(ext(q_, rng), rng)
+    edges_pq = [ext(a, random.Random(3)) + cached_of(ext(b, random.Random(4))) for a in SPECIAL_POINTS
+                for b in SPECIAL_POINTS]
+    chk('ExtendedPoint_add_CachedPoint', gen_pq,
+        lambda i, o: ext_ok(o, ed_add(affine_of_ext(i[:4]), affine_of_cached(i[4:]))), edges_pq)
+    chk('ExtendedPoint_sub_CachedPoint', gen_pq,
+        lambda i, o: ext_ok(o, ed_add(affine_of_ext(i[:4]), ed_neg(affine_of_cached(i[4:])))), edges_pq)
+
+    def o_cneg(i, o):
+        if o != [i[1], i[0], i[2], (-i[3]) % P]:
+            return 'not (c1, c0, c2, -c3)'
+        return None if affine_of_cached(o) == ed_neg(affine_of_cached(i)) else 'does not decode to -Q'
+    chk('CachedPoint_neg', lambda rng: cached_of(ext(some_point(rng), rng), rng), o_cneg)
+    chk('ExtendedPoint_identity', lambda rng: [], lambda i, o: None if o == [0, 1, 1, 0] else 'mismatch')
+    chk('CachedPoint_identity', lambda rng: [],
+        lambda i, o: None if o == cached_of([0, 1, 1, 0]) and affine_of_cached(o) == (0, 1) else 'mismatch')
+
+    def gsel(rng):
+        return [rfe(rng) for _ in range(8)] + [rng.randrange(2)]
+
+    def osel(i, o):
+        return None if o == (i[4:8] if i[8] else i[:4]) else 'selection mismatch'
+    names = ['CachedPoint_conditional_select', 'CachedPoint_conditional_assign']
+    if has_ext_select:
+        names += ['ExtendedPoint_conditional_select', 'ExtendedPoint_conditional_assign']
+    for nm in names:
+        chk(nm, gsel, osel)
+
+
+def cross_check_serial(mods, consts_of, n, rng):
+    """vector double / add against the serial AlgEdwards items on the same points (equal affine results)"""
+    msgs = []
+    ser = mods.get('AlgEdwards', {})
+    for vm in ('AlgAvx2Edwards', 'AlgIfmaEdwards'):
+        vp = mods.get(vm, {})
+        need = ['ExtendedPoint_double', 'ExtendedPoint_add_CachedPoint', 'ExtendedPoint_sub_CachedPoint',
+                'CachedPoint_from_ExtendedPoint']
+        if any(k not in vp for k in need) or any(k not in ser for k in ('double', 'add', 'sub')):
+            msgs.append('%s: items missing for the serial cross-check' % vm)
+            continue
+        bad = None
+        for _ in range(n):
+            pe, qe = ext(some_point(rng), rng), ext(some_point(rng), rng)
+            cq = run_aprog(vp['CachedPoint_from_ExtendedPoint'], consts_of[vm], qe)
+            pairs = [
+                (run_aprog(vp['ExtendedPoint_double'], consts_of[vm], pe), run_aprog(ser['double'], consts_of['AlgEdwards'], pe)),
+                (run_aprog(vp['ExtendedPoint_add_CachedPoint'], consts_of[vm], pe + cq),
+                 run_aprog(ser['add'], consts_of['AlgEdwards'], pe + qe)),
+                (run_aprog(vp['ExtendedPoint_sub_CachedPoint'], consts_of[vm], pe + cq),
+                 run_aprog(ser['sub'], consts_of['AlgEdwards'], pe + qe)),
+            ]
+            for a, b in pairs:
+                if a[2] == 0 or b[2] == 0 or affine_of_ext(a) != affine_of_ext(b):
+                    bad = (pe, qe)
+            if bad:
+                break
+        msgs.append('%-44s %s' % (vm + ' vs serial AlgEdwards (double/add/sub)',
+                                  'FAIL at %r' % (bad,) if bad else 'ok   [%d point pairs, equal affine results]' % n))
+    return msgs
+
+
 def alg_checks():
+    C = []
+    vec_edwards_checks(C, 'AlgAvx2Edwards', True)
+    vec_edwards_checks(C, 'AlgIfmaEdwards', False)
+    C_vec = C
     C = []
 
     def chk(mod, item, gen, oracle, edges=()):
@@ -691,7 +805,7 @@ def alg_checks():
         h = (Z * Z - D * T * T) % P
         return None if o == [e, f, g_, h, e * g_ % P, f * h % P] else 'mismatch'
     chk('AlgRistretto', 'batch_state_from', lambda rng: ext(some_point(rng), rng), o_bfrom)
-    return C
+    return C + C_vec
 
 
 def batch_compose_check(progs, consts, n, rng):
@@ -721,16 +835,19 @@ def run_alg(gen, n, seed, only):
     fails = 0
     mods = {}
     consts = None
-    for m in ('AlgField', 'AlgCurve', 'AlgEdwards', 'AlgMontgomery', 'AlgRistretto'):
+    consts_of = {}
+    for m in ('AlgField', 'AlgCurve', 'AlgEdwards', 'AlgMontgomery', 'AlgRistretto', 'AlgAvx2Edwards',
+              'AlgIfmaEdwards'):
         p = os.path.join(gen, m + '.lean')
         if os.path.exists(p):
             names, progs = parse_alg_module(p)
             mods[m] = progs
+            consts_of[m] = load_consts(gen, names)
             if consts is None:
-                consts = load_consts(gen, names)
+                consts = consts_of[m]
                 cn = names
-            elif names != cn:
-                print('ALG FAIL: constNames of %s differ' % m)
+            elif names[:len(cn)] != cn:
+                print('ALG FAIL: the shared prefix of constNames of %s differs' % m)
                 fails += 1
         else:
             mods[m] = {}
@@ -768,7 +885,7 @@ def run_alg(gen, n, seed, only):
             if len(ins) != prog[0]:
                 fail = (ins, 'check supplies %d inputs, program takes %d' % (len(ins), prog[0]))
                 break
-            out = run_aprog(prog, consts, [x % P for x in ins])
+            out = run_aprog(prog, consts_of[mod], [x % P for x in ins])
             tested += 1
             err = oracle([x % P for x in ins], out)
             if err:
@@ -796,6 +913,10 @@ def run_alg(gen, n, seed, only):
                 print('%-44s %5d %5d %6d %7d  ok   [from ; 1/(eg*fh) ; closure == ENCODE(2P)]'
                       % (key, prog[0], len(prog[2]), len(prog[1]), t))
     if not only:
+        for msg in cross_check_serial(mods, consts_of, max(50, n // 2), random.Random('xs.%d' % seed)):
+            print(msg)
+            if 'FAIL' in msg or 'missing' in msg:
+                fails += 1
         for m in mods:
             for item in mods[m]:
                 if '%s.%s' % (m, item) not in seen:
